@@ -309,7 +309,32 @@ def rule_tau(ctx, tu):
             ctx.check(used and len(same) == len(used), R, g.node, g.qual, "%s applied as %s" % (tab, sorted(set(used))[:2]),
                       "read back at the index it was stored at (%s)" % tgt, "counts are applied at another index than they were "
                       "drawn at")
-    ctx.floor(R, 8)
+    # the sampler behind Poisson(lambda): every value it returns is 0 (for a non-positive mean) or one draw of
+    # std::poisson_distribution constructed with that very mean, from the engine's generator
+    for b in BASES:
+        f = tu.fn(b + "::Poisson")
+        lam = f.param_names()[0]
+        rets = [n for n in walk(f.body) if n.get("kind") == "ReturnStmt" and kids(n)]
+        ctx.need(rets, R, "%s: no return" % f.qual)
+        for r in rets:
+            v = strip(kids(r)[0], casts=True)
+            if cxa.const_int(v) == 0:
+                ctx.ok(R, r, f.qual, text(r)[:60], "no firing for a non-positive mean (guard order: C11.POISSON)", nontrivial=False)
+                continue
+            okk = False
+            if v.get("kind") == "CXXOperatorCallExpr" and name_of(kids(v)[0]) == "operator()":
+                obj, args = strip(kids(v)[1], casts=True), kids(v)[2:]
+                ty = obj.get("type", {}).get("qualType", "")
+                ctor_args = [strip(a, casts=True) for a in kids(obj)] if obj.get("kind") in (
+                    "CXXTemporaryObjectExpr", "CXXConstructExpr", "CXXFunctionalCastExpr") else []
+                while len(ctor_args) == 1 and ctor_args[0].get("kind") in ("CXXConstructExpr", "CXXTemporaryObjectExpr"):
+                    ctor_args = [strip(a, casts=True) for a in kids(ctor_args[0])]
+                okk = "poisson_distribution" in ty and len(ctor_args) == 1 and uname(ctor_args[0]) == lam and \
+                    len(args) == 1 and name_of(strip(args[0], casts=True)) == "rng"
+            ctx.check(okk, R, r, f.qual, text(r)[:100], "one draw of std::poisson_distribution(%s) from rng" % lam,
+                      "a value returned by Poisson(%s) is not a draw of std::poisson_distribution(%s)(rng): the number of "
+                      "firings of a channel over a step is no longer Poisson with mean propensity x dt" % (lam, lam))
+    ctx.floor(R, 12)
 
 
 def run(ctx):
@@ -320,8 +345,12 @@ def run(ctx):
     rule_prop(ctx, tu)
     rule_partition(ctx, tu)
     rule_tau(ctx, tu)
+    # a diffusion event is one molecule leaving the source and entering the direction's neighbour, each half suppressed only
+    # by the chemostat flag of its own entry (otherwise a selected event is a no-op or half an event)
+    from . import c02
+    c02.rule_pair(ctx, tu, "C07.PAIR")
     from .. import dim
     dim.rule_stochastic(ctx, tu, "C07.DIM")
     ctx.assume("NOT decided: that waiting times and event choices follow the master-equation distribution, the Poisson "
                "law of tau-leap counts, non-negativity of states, strict increase of time (distributional / value-level)")
-    ctx.assume("chemostat exemption and pairing of moves are C03.GUARD-ID / C02.PAIR")
+    ctx.assume("chemostat exemption is C03.GUARD-ID; the pairing rule is shared with C02.PAIR")
